@@ -201,6 +201,9 @@ class C19(PropBase):
             if r < 0.6 or not slotted_known:
                 steps.append({"op": "slot", "cls": c["n"], "dict": rng.random() < 0.3, "weakref": rng.random() < 0.5,
                               "rebase": rng.random() < 0.5})
+                if c["n"] in slotted_known and rng.random() < 0.4:
+                    # the class that is already slotted is decorated once more (it is a dataclass like any other)
+                    steps[-1]["again"] = True
                 if rng.random() < 0.4:
                     # `slots = slotted(dict=.., weakref=..)` made once and applied to class after class
                     steps[-1]["shared_deco"] = True
@@ -243,6 +246,12 @@ class C19(PropBase):
                 bname = twin.__bases__[0].__name__
                 if bname in sess.slotted:
                     target = _rebuild_on(twin, sess.slotted[bname][0])
+            if step.get("again") and step["cls"] in sess.slotted:
+                target = sess.slotted[step["cls"]][0]
+                twin = sess.slotted[step["cls"]][2]
+                sess.probes["decorated_an_already_slotted_class"] += 1
+            else:
+                twin = target
             if step.get("shared_deco"):
                 dk = (step["dict"], step["weakref"])
                 if dk not in sess.decos:
@@ -254,7 +263,7 @@ class C19(PropBase):
                 out = sess.guarded(sess.call, step, tlc.slotted, target, dict=step["dict"], weakref=step["weakref"])
             sess.decolog.append(("slot", step["cls"], out.ok))
             if out.ok:
-                sess.slotted[step["cls"]] = (out.value, dict(dict=step["dict"], weakref=step["weakref"]), target)
+                sess.slotted[step["cls"]] = (out.value, dict(dict=step["dict"], weakref=step["weakref"]), twin)
             return Outcome(out.ok, ["slotted", step["cls"]] if out.ok else None, out.exc)
         if op == "slot_bad":
             if step["what"] == "plain":
